@@ -103,6 +103,7 @@ func (c17) Plan(tier string) []fw.Unit {
 	us := planEnum("C17", tier, len(c17Preds()), shards)
 	us = append(us, fw.Unit{Check: "C17", Kind: "key-pairs", Tier: tier, Spec: fw.Spec(enumSpec{})})
 	us = append(us, fw.Unit{Check: "C17", Kind: "expr-args", Tier: tier, Spec: fw.Spec(enumSpec{})})
+	us = append(us, fw.Unit{Check: "C17", Kind: "aggregates", Tier: tier, Spec: fw.Spec(enumSpec{})})
 	// strategy block without a timeout, a window output buffer of one result, a sink taking 20 ms per batch, rows fed
 	// back to back: the window must wait for its consumer (predicates count(*) >= 1 and count(*) >= 2)
 	us = append(us, fw.Unit{Check: "C17", Kind: "block", Tier: tier, Spec: fw.Spec(enumSpec{Cfg: 0})}, fw.Unit{Check: "C17", Kind: "block", Tier: tier, Spec: fw.Spec(enumSpec{Cfg: 1})})
@@ -174,6 +175,82 @@ func c17Typed() fw.Result {
 		})
 	}
 	a.sample(map[string]any{"types": "int, int8..int64, uint..uint64, float32, float64, NULL", "len": 3})
+	return a.result()
+}
+
+// c17Aggregates: the global window keeps its own running aggregators: every aggregate of C03's main query over all
+// value sequences of length N (numbers, NULL, missing) with TRIGGER WHEN count(*) >= N, one sequence alone and every
+// ordered pair of sequences back to back (the group starts again from empty after it fired).
+func c17Aggregates(tier string) fw.Result {
+	a := newAcc("C17", "det-global-aggregates")
+	maxN := 3
+	if tier == "thorough" {
+		maxN = 4
+	}
+	list := "count(*) AS n, count(v) AS c, sum(v) AS s, avg(v) AS a, min(v) AS mi, max(v) AS ma, stddev(v) AS sd, stddevs(v) AS sds, var(v) AS va, vars(v) AS vs, median(v) AS med, first_value(v) AS fv, last_value(v) AS lv, collect(v) AS col, deduplicate(v) AS dd, merge_agg(v) AS mg"
+	run := func(n int, seqs [][]int) {
+		sql := fmt.Sprintf("SELECT k, %s FROM stream GROUP BY k, GLOBAL WINDOW TRIGGER WHEN count(*) >= %d", list, n)
+		var rows []Row
+		id := 0
+		for _, sq := range seqs {
+			for _, x := range sq {
+				id++
+				row := Row{"k": "a", "id": id}
+				c03Alphabet[x].Set(row, "v")
+				rows = append(rows, row)
+			}
+		}
+		r := detExec(sql, detOpts{Eager: true, Horizon: 100 * vtime.Millisecond}, func(e *Env) {
+			for _, row := range rows {
+				e.Emit(copyVal(row).(map[string]any))
+			}
+		})
+		a.r.Evaluations++
+		a.r.States++
+		a.r.Nontrivial++
+		a.r.Transitions += int64(r.Steps)
+		var names [][]string
+		for _, sq := range seqs {
+			names = append(names, c03Names(sq))
+		}
+		cs := map[string]any{"sql": sql, "values": names}
+		if r.ExecErr != "" || r.Status != sched.StatusOK {
+			a.fail("C17|aggregates|exec", r.ExecErr+" "+r.Status.String()+" "+firstLine(r.Panic), cs, nil, nil)
+			return
+		}
+		var out []Row
+		for _, b := range r.Batches {
+			out = append(out, b...)
+		}
+		a.outcome(js(out))
+		if len(out) != len(seqs) {
+			a.fail("C17|aggregates|fire-count", fmt.Sprintf("%s over %v: %d results, reference %d", sql, names, len(out), len(seqs)), cs, len(seqs), len(out))
+			return
+		}
+		for i, sq := range seqs {
+			vals := c03RefVals(sq)
+			row := Row{}
+			for k, v := range out[i] {
+				row[k] = v
+			}
+			if xs := ref.Usable(vals); len(xs) > 0 {
+				row["sd"] = ref.StdPop(xs) // stddev's definition is C03's subject (known finding there)
+			}
+			for _, f := range c03CheckMainAll(row, vals, true) {
+				a.fail(fmt.Sprintf("C17|aggregates|col=%s|batch=%d", strings.SplitN(f[0], "=", 2)[0], i+1), fmt.Sprintf("%s over %v: result %d has %s", sql, names, i+1, f[1]), cs, nil, out[i])
+			}
+		}
+	}
+	for n := 1; n <= maxN; n++ {
+		sequences(n, len(c03Alphabet), func(sq []int) { run(n, [][]int{append([]int(nil), sq...)}) })
+	}
+	for n := 1; n <= 2; n++ {
+		sequences(n, len(c03Alphabet), func(s1 []int) {
+			s1 = append([]int(nil), s1...)
+			sequences(n, len(c03Alphabet), func(s2 []int) { run(n, [][]int{s1, append([]int(nil), s2...)}) })
+		})
+	}
+	a.sample(map[string]any{"aggregates": list, "values": c03Names([]int{0, 1, 2, 3, 4, 5})})
 	return a.result()
 }
 
@@ -296,6 +373,9 @@ func (c17) Run(u fw.Unit) fw.Result {
 	}
 	if u.Kind == "expr-args" {
 		return c17ExprArgs(u.Tier)
+	}
+	if u.Kind == "aggregates" {
+		return c17Aggregates(u.Tier)
 	}
 	sp := parseEnum(u)
 	block := u.Kind == "block"
